@@ -60,4 +60,14 @@ def srvStep (reg : AList Method) (args : List String) : AList Method × String :
   | ["names"] => (reg, "ok " ++ joinC (sortStrings reg.keys))
   | _ => (reg, "bad-op")
 
+/-- `fuzz`: what C15 promises for a message of the given shape (C15 `reply_well_formed`, C14 `serve_never_blocks`):
+a request is answered under its own id and the connection stays usable; anything else is not answered; every other
+connection keeps being served -/
+def fuzzStep (args : List String) : String :=
+  match findStr "shape" args with
+  | some "request" => "alive reply=1 idok=1 sender=open other=ok"
+  | some "reply" => "alive reply=0 idok=- sender=open other=ok"
+  | some "nonmessage" => "alive reply=0 idok=- sender=any other=ok"
+  | _ => "bad-op"
+
 end Vipnode.Drv
